@@ -136,6 +136,26 @@ def mpc_closure(S):
     return {k for k in cl if "SimpleChannel" not in fg.bodies[k].owner}
 
 
+def concrete_node_ty(S, n, depth=0, seen=None):
+    """Type of a component node; inside a generic helper (`&[T]`) the type of the value the
+    caller passed in (callers are not generic in this crate's protocol code)."""
+    import re
+    fg = S.fg
+    ty = norm_ty(S.node_ty(n))
+    if not re.search(r"(?<![A-Za-z0-9_:])[A-Z]{1,3}(?![A-Za-z0-9_:])", ty) or depth > 8:
+        return ty
+    seen = seen or set()
+    if n in seen:
+        return ty
+    seen.add(n)
+    for e in fg.inn.get(n, ()):
+        if e.kind in ("callarg", "closarg", "upvar", "copy", "ref") and e.src[0] != "F":
+            t2 = concrete_node_ty(S, e.src, depth + 1, seen)
+            if not re.search(r"(?<![A-Za-z0-9_:])[A-Z]{1,3}(?![A-Za-z0-9_:])", t2):
+                return t2
+    return ty
+
+
 def rule_peer_shaped_sinks(S, res):
     """R1.i / R1.iii: index / slice / unwrap on message components below the validated level."""
     fg = S.fg
@@ -155,7 +175,7 @@ def rule_peer_shaped_sinks(S, res):
                 continue
             bk = n[0]
             b = fg.bodies[bk]
-            nty = norm_ty(S.node_ty(n))
+            nty = concrete_node_ty(S, n)
             for e in fg.out.get(n, ()):
                 if e.kind != "call" or e.block is None or e.body != bk:
                     continue
@@ -796,3 +816,59 @@ def rule_wait_only_on_channel(S, res):
     res.floor("awaits_in_engine", n, 15)
     if not bad:
         res.ok("R1.wait", "engine", "", "%d awaits, all on engine futures / joins; no std MutexGuard alive across a yield" % n)
+
+
+def rule_raw_bytes(S, res):
+    """R1.raw: inside the receive primitives (src/channel.rs) the raw bytes handed over by the user's
+    Channel are attacker-chosen, of any length: before decoding they are only passed on (to the
+    decoder, to error mapping), never indexed, split, sliced, converted with unwrap/expect."""
+    fg = S.fg
+    seeds = []
+    n_recv = 0
+    chan = lambda k: fg.bodies[k].owner.startswith("polytune::channel::") and "SimpleChannel" not in fg.bodies[k].owner
+    for k, b in fg.bodies.items():
+        if b.krate != "polytune" or not chan(k):
+            continue
+        for bi, t in b.calls():
+            names = callee_names(t)
+            if names and names[0].endswith("channel::Channel::recv_bytes_from") and bi in b.live_blocks():
+                n_recv += 1
+                seeds.append(fg.node_of_place(k, t["d"]))
+    flow = fg.forward(seeds, node_ok=lambda x: x[0] != "F" and chan(x[0]), edge_ok=lambda e: secmod.struct_edge(e) or e.kind in ("lcall",), local=True)
+    # stop at the decoder: its result is a typed value whose shape the receive rules (R1.i) cover
+    n = 0
+    bad = 0
+    by_body = defaultdict(set)
+    for x in flow:
+        ty = norm_ty(S.node_ty(x) or fg.bodies[x[0]].locals[x[1]]["ty"])
+        if "u8" in ty:
+            by_body[x[0]].add(x[1])
+    for k, ls in by_body.items():
+        b = fg.bodies[k]
+        for bi, t in b.calls():
+            names = callee_names(t)
+            tail = names[-1].rsplit("::", 1)[-1] if names else ""
+            if not t["args"] or t["args"][0]["k"] == "const" or root_local(b, t["args"][0]) not in ls or bi not in b.live_blocks():
+                continue
+            aty = norm_ty(t["args"][0]["p"]["ty"])
+            if not (aty.startswith("alloc::vec::Vec<u8") or "[u8" in aty):
+                continue
+            n += 1
+            if tail in INDEX_TAILS or tail in ("split_at_checked", "first_chunk", "split_first_chunk") and False:
+                bad += 1
+                res.bad("R1.raw", "%s|%s" % (b.owner.rsplit("::", 1)[-1], tail), "`%s` on the raw bytes received from the peer (any length, before decoding): a short message panics the party instead of returning Err" % tail, where(b, bi),
+                        key="R1.raw|%s|%s" % (b.owner.rsplit("::", 1)[-1], tail))
+        for bi, blk in enumerate(b.blocks):
+            t = blk["t"]
+            if t["k"] == "assert" and t["mk"] == "BoundsCheck" and bi in b.live_blocks():
+                # base local of the indexed place
+                for s2 in b.blocks[t["t"]]["s"]:
+                    if s2["k"] == "assign":
+                        for cand in ([s2["r"]["o"]["p"]] if s2["r"]["k"] == "use" and s2["r"]["o"]["k"] != "const" else []) + ([s2["r"]["p"]] if s2["r"]["k"] in ("ref", "rawptr") else []) + [s2["p"]]:
+                            if cand["l"] in ls and any(isinstance(e_, dict) and "i" in e_ for e_ in cand["pr"]):
+                                bad += 1
+                                res.bad("R1.raw", "%s|[]" % b.owner.rsplit("::", 1)[-1], "the raw bytes received from the peer are indexed before decoding", where(b, bi))
+    res.need("R1.raw", "raw_receive_sites", n_recv, 1, "calls of Channel::recv_bytes_from in the receive primitives")
+    res.count("uses_of_raw_message_bytes", n)
+    if not bad:
+        res.ok("R1.raw", "channel", "", "%d uses of the raw message bytes in the receive primitives: passed to the decoder / error mapping only" % n)
